@@ -53,15 +53,16 @@ const kdfCostLimit = 4096
 // walked TLV by TLV, descending into every constructed element and continuing
 // with the next sibling when something inside does not parse - a superset of
 // what the library's staged asn1.Unmarshal calls can read.
-func kdfCost(in []byte) uint64 {
+func kdfCost(in []byte) (maxInt, product uint64) {
 	var epki struct {
 		Algo pkix.AlgorithmIdentifier
 		Data []byte
 	}
 	if _, err := asn1.Unmarshal(in, &epki); err != nil {
-		return 0
+		return 0, 1
 	}
 	var m uint64
+	prod := uint64(1)
 	var walk func(b []byte, depth int)
 	walk = func(b []byte, depth int) {
 		for len(b) > 0 && depth < 40 {
@@ -84,12 +85,26 @@ func kdfCost(in []byte) uint64 {
 				if v > m {
 					m = v
 				}
+				if v > 1 {
+					if prod > 1<<40 || v > 1<<20 {
+						prod = 1 << 62
+					} else {
+						prod *= v
+					}
+				}
 			}
 			b = rest
 		}
 	}
 	walk(epki.Algo.Parameters.FullBytes, 0)
-	return m
+	return m, prod
+}
+
+// kdfTooExpensive: a single cost parameter above kdfCostLimit, or a product of
+// all INTEGER parameters above 2^22 (scrypt's cost is N*r*p).
+func kdfTooExpensive(in []byte) bool {
+	m, prod := kdfCost(in)
+	return m > kdfCostLimit || prod > 1<<22
 }
 
 // ---------------------------------------------------------------- watchdog
@@ -117,10 +132,8 @@ func watchdog() {
 		stacks := string(buf[:n])
 		c, _ := curCase.Load().(hcase)
 		test, _ := curTest.Load().(string)
-		if strings.Contains(stacks, "pbkdf2.Key") || strings.Contains(stacks, "scrypt.Key") || strings.Contains(stacks, "pkcs.(*PBES1).key") {
-			// cost filter let an expensive KDF through: a harness problem, not a verdict
-			h.HarnessError("case exceeded %v inside a password KDF (target %s, input %s)", watchdogLimit(), c.T, h.Hex(c.In))
-		}
+		// Cost parameters of password KDFs are bounded by kdfTooExpensive before the
+		// call, so a call that is still running after the limit is a hang wherever it is.
 		h.Violation(test, "hang", c, fmt.Sprintf("call did not return within %v (non-termination); goroutine dump:\n%s", watchdogLimit(), trim(stacks, 6000)))
 		fmt.Fprintf(os.Stderr, "watchdog: %s did not return within %v on input %s\n", c.T, watchdogLimit(), h.Hex(c.In))
 		os.Exit(1)
@@ -144,7 +157,7 @@ func checkHostile(c hcase, r *h.Rec) error {
 	}
 	r.Label("group:" + t.group)
 	r.Label("kind:" + c.Kind)
-	if t.kdf && kdfCost(c.In) > kdfCostLimit {
+	if t.kdf && kdfTooExpensive(c.In) {
 		r.Label("excluded:kdf-cost")
 		return nil
 	}
@@ -406,7 +419,7 @@ func selfTestDER() error {
 	// the KDF cost filter must see an iteration count that swallowed its neighbours
 	bad := []byte{0x30, 0x30, 0x30, 0x2c, 0x06, 0x09, 0x2a, 0x86, 0x48, 0x86, 0xf7, 0x0d, 0x01, 0x05, 0x0d, 0x30, 0x1f, 0x30, 0x1d, 0x06, 0x09, 0x2a, 0x86, 0x48, 0x86, 0xf7, 0x0d, 0x01, 0x05, 0x0c,
 		0x30, 0x10, 0x04, 0x02, 0xaa, 0xbb, 0x02, 0x05, 0x04, 0x02, 0x01, 0x10, 0x30, 0x0c, 0x03, 0x41, 0x42, 0x43, 0x04, 0x00}
-	if c := kdfCost(bad); c != 0x0402011030 {
+	if c, _ := kdfCost(bad); c != 0x0402011030 {
 		return fmt.Errorf("kdfCost = %#x", c)
 	}
 	_ = gen.Fill
